@@ -30,8 +30,8 @@ MANIFEST = {
                   "test and holds a trex for every track id (C19_built_fragmented_trex); the decision procedure roundtrip_ok (encode "
                   "with C01's encoder, decode with C01's decoder, EQUAL tree, fragmented, trex) is sound "
                   "(C19_roundtrip_checker_sound) and is evaluated, extracted, on every correspondence case. C19_roundtrip is still "
-                  "PARTIAL: proved over a complete small scope of 1951 histories (C19_roundtrip_partial: one or two tracks, seven media "
-                  "types, three kinds of language tag, every descriptor kind except AAC); for arbitrary op sequences the equality of "
+                  "PARTIAL: proved over a complete small scope of 271 histories (C19_roundtrip_partial: one or two tracks, seven media "
+                  "types, three kinds of language tag, every descriptor kind); for arbitrary op sequences the equality of "
                   "the decoded tree and fragment decoding are explored (model: roundtrip_ok on every case; real code: search), not "
                   "proved (needs a print-then-parse lemma per box kind of the C01 decoder). Refutations: mp4a sample rate for "
                   "96000 Hz (known finding), one-byte elng tag, AddEmptyTrack on decoded inits (outside the quantifier).",
